@@ -487,6 +487,13 @@ pub fn judge_wire(out: &mut Outcome, broker: &Broker, big_payload: &[u8], inboun
                 if p.topic == "out/small" && p.payload.as_deref() != Some(&[1u8, 2, 3][..]) { out.problem("small-publish-payload-corrupted", ""); }
             }
         }
+        for p in connection {
+            if let gneiss_mqtt::verif::Pkt::Disconnect(d) = p {
+                if out.plan.workload == 1 { if let Some(reason) = &d.reason_string { if reason.len() != BIG || reason.bytes().any(|b| b != b'r') { out.problem("large-disconnect-corrupted-on-the-wire", format!("reason string of {} bytes", reason.len())); } } }
+            }
+            if let gneiss_mqtt::verif::Pkt::Unsubscribe(u) = p { if u.topic_filters != vec!["gone/#".to_string()] { out.problem("unsubscribe-content-differs-on-the-wire", format!("{:?}", u.topic_filters)); } }
+            if let gneiss_mqtt::verif::Pkt::Subscribe(s) = p { if s.subscriptions.len() != 1 || s.subscriptions[0].topic_filter != "in/#" { out.problem("subscribe-content-differs-on-the-wire", format!("{:?}", s.subscriptions)); } }
+        }
         if seen_big > 1 { out.problem("publish-duplicated-within-connection", format!("{} copies of the large publish on one connection", seen_big)); }
     }
     for payload in inbound.iter() {
